@@ -5,4 +5,5 @@ let table = [
   "mapfut", MapFut.accept;
   "comb", Comb.accept;
   "stack", Stack.run_line;
+  "timeout", Timeout.accept;
 ]
